@@ -938,9 +938,40 @@ class CallMixin:
                 args_ = [self.mk("Starred", (elemv,), None, site)]
             r = self.call(f, args_ + list(pos[1:]), kw, st, fr, site)
             return self.mk("BagMap", (recv, self.snapshot(r, st)), None, site)
+        if recv.op == "Bag" and name == "map_partitions" and pos:
+            # bag.map_partitions(f, *a, **k): f(partition, *a, **k) per partition - a run of consecutive elements of
+            # unknown length - and the results of the partitions concatenated.  The combinator is recorded (it is not
+            # element-wise); f is evaluated once on a symbolic partition so that what it does per element is visible.
+            eff = self.effect("dask-combinator", site, st, fr, node=recv, name=name)
+            elemv = self.iter_elem(recv.args[0], site)
+            part = self.mk("ListOf", (elemv,), None, site)
+            part.extra = {"partition_of": recv}
+            try:
+                r = self.snapshot(self.call(pos[0], [part] + list(pos[1:]), kw, st, fr, site), st)
+            except PathEnd:
+                r = None
+            n = self.mk("BagOther", (recv,), name, site)
+            if r is not None:
+                per = r.args[0] if r.op == "ListOf" else (r.args[0] if r.op in ("List", "Tuple") and len(r.args) == 1
+                                                          else None)
+                n.extra = {"partition_result": r, "element": per}
+                # element-wise: the partition's result is one value per element, each computed from its own element -
+                # nothing looks at the partition as a whole (its length, its first element, a position)
+                from .ir import walk as _walk
+                eff.data["elementwise"] = r.op == "ListOf" and not any(x is part for x in _walk([r.args[0]]))
+                eff.data["func"] = pos[0]
+            return n
         if recv.op in ("Bag", "BagMap") and name not in ("map", "compute", "starmap"):
             self.effect("dask-combinator", site, st, fr, node=recv, name=name)
             return self.mk("BagOther", (recv,), name, site)
+        if recv.op == "BagOther" and name == "compute" and recv.extra and recv.extra.get("element") is not None:
+            self.effect("dask-compute", site, st, fr, node=recv, kwargs=sorted(kw))
+            lo = self.mk("ListOf", (recv.extra["element"],), None, site)
+            # one result per element, in order (the partition function maps its elements one by one): the same shape as
+            # an element-wise map; the combinator itself stays on record for the rules that care about it
+            lo.extra = {"bag": self.mk("BagMap", (recv.args[0], recv.extra["element"]), None, site),
+                        "partitionwise": True}
+            return lo
         if recv.op == "BagMap" and name == "compute":
             self.effect("dask-compute", site, st, fr, node=recv, kwargs=sorted(kw))
             lo = self.mk("ListOf", (recv.args[1],), None, site)
@@ -1164,7 +1195,7 @@ class CallMixin:
                 return self.mk("Tuple" if q.endswith("tuple") else "List", (), None, site)
             if P[0].op in ("Tuple", "List") and not any(a.op == "Starred" for a in P[0].args):
                 return self.mk("Tuple" if q.endswith("tuple") else "List", P[0].args, None, site)
-            if P[0].op == "ListComp":
+            if P[0].op in ("ListComp", "ListOf"):
                 return P[0]
             if P[0].op == "Obj" and P[0].extra and P[0].extra.get("tuple_fields") is not None and not kw:
                 # tuple(record): the fields of a named tuple, in order
